@@ -163,6 +163,19 @@ func permChoice(n int, label string) []int {
 		perms = append(perms, rev)
 	}
 	s := S
+	if s != nil && s.orderMode > 0 {
+		// engine B: a whole handler runs under one fixed alternative iteration order
+		switch s.orderMode {
+		case 1: // reversed
+			return perms[len(perms)-1]
+		default: // rotated by one
+			p := make([]int, n)
+			for i := range p {
+				p[i] = (i + 1) % n
+			}
+			return p
+		}
+	}
 	if s == nil || s.budget[KOrder] == 0 {
 		return id
 	}
